@@ -7,7 +7,7 @@ import ast
 from tiv.astutil import body_walk, call_name, dotted, enclosing_stmt, norm, short, stores_in, walk_local
 from tiv.cfg import CFG
 from tiv.mutate import M
-from tiv.sem import origin
+from tiv.sem import origin, trace
 
 RULES = {
     "MEMO": "memo safety (shared, rules/common.py): a memoised function in this property's files (or called from them) is a function of its "
@@ -231,7 +231,10 @@ def run(ck, m):
             patched[norm(n.targets[0])] = n
     for nm, wrap in (("Process.start", "_process_start_wrapper"), ("Process.run", "_process_run_wrapper")):
         n = patched.get(nm)
-        ok = n is not None and wrap in norm(n.value) and f"wraps({nm})" in norm(n.value)
+        # at import: a module-level statement (helpers called at module level are inlined there); the wrapped original traced through locals
+        from tiv.astutil import enclosing_func
+        tv = norm(trace(tree, n.value)) if n is not None and enclosing_func(n) is None else ""
+        ok = n is not None and wrap in tv and f"wraps({nm})" in tv
         ck.ob("L4", n or tree, ok, f"{nm} must be replaced by wraps({nm})({wrap}) at import", stmt=f"patch {nm}")
 
     # ---- L5 ---------------------------------------------------------------------------
